@@ -498,6 +498,12 @@ IsStream(v) == v.net = "tcp" /\ v.proto \notin {"clock", "ip", "quic"}
 (*   o.repeatOK : a second evaluation on the same prefix agreed, always    *)
 (*   o.pureOK   : no evaluation read from the socket or moved the cursor   *)
 (*   o.maxAlloc, o.allocBound : bytes allocated by one evaluation, limit   *)
+(*   o.inc      : the whole stream delivered to ONE connection in two or   *)
+(*                three segments, the matcher asked after each (what the   *)
+(*                routing loop does while a route is undecided):           *)
+(*                [cuts |-> stream length after each segment, allMore |->  *)
+(*                every evaluation before the last segment asked for more, *)
+(*                final |-> the verdict after the last segment]            *)
 (***************************************************************************)
 VerdictAt(o, n) == LET S == { i \in DOMAIN o.verdicts : o.verdicts[i].n = n } IN
                    IF S = {} THEN "?" ELSE o.verdicts[CHOOSE i \in S : TRUE].v
@@ -521,6 +527,9 @@ M2(v, o) == (IsStream(v) /\ VerdictAt(o, o.msglen) = "Y") =>
                \A i \in DOMAIN o.verdicts : o.verdicts[i].n < o.msglen => o.verdicts[i].v \in {"M", "Y"}
 M3(v, o) == o.repeatOK
 M4(v, o) == o.pureOK
+\* a message that reaches one connection in fragments, the matcher asking for more after each, ends in the verdict it gets
+\* when it arrives whole (whatever the matcher or the connection keeps between evaluations must not decide)
+M5(v, o) == \A i \in DOMAIN o.inc : o.inc[i].allMore => o.inc[i].final = Final(o)
 \* C04
 A1(v, o) == \A i \in DOMAIN o.verdicts : o.verdicts[i].v # "P"
 A2(v, o) == o.maxAlloc <= o.allocBound
@@ -531,6 +540,7 @@ WireViolations(v, o) ==
   \cup (IF M2(v, o) THEN {} ELSE {"M2 a message that matches whole was rejected on a proper prefix instead of asking for more"})
   \cup (IF M3(v, o) THEN {} ELSE {"M3 repeating the evaluation on the same bytes gave another verdict"})
   \cup (IF M4(v, o) THEN {} ELSE {"M4 evaluating the matcher read from the network or moved the read cursor"})
+  \cup (IF M5(v, o) THEN {} ELSE {"M5 a message delivered to one connection in fragments, the matcher asked after each, did not end in the verdict it gets when delivered whole"})
   \cup (IF A1(v, o) THEN {} ELSE {"A1 the matcher panicked"})
   \cup (IF A2(v, o) THEN {} ELSE {"A2 one evaluation allocated more than the bound"})
 =============================================================================
